@@ -44,6 +44,16 @@ void judge_pair(vh::Ctx& c, const Pair& p, bool derived, Rng* r) {
     if (!(std::fabs(back - got) <= 64 * EPS * mag)) c.violation(vh::fmt("C02:trace:d%d:not-symmetric", d), ctx());
   }
   if (A.GetComponents() != p.a || B.GetComponents() != p.b) c.violation("C02:operand-modified", ctx());
+  {  // the result stored back into one of the operands
+    SU_vector T1(A), T2(B), T3(A), T4(B);
+    T1 = squids::iCommutator(T1, B); T2 = squids::iCommutator(A, T2);
+    T3 = squids::ACommutator(T3, B); T4 = squids::ACommutator(A, T4);
+    c.eval(4);
+    for (int k = 0; k < n; k++) {
+      if (T1[k] != C[k] || T2[k] != C[k]) { c.violation(vh::fmt("C02:commutator:d%d:stored-into-an-operand-differs", d), vh::fmt("component %d: into first operand %.17g, into second %.17g, fresh %.17g; ", k, T1[k], T2[k], C[k]) + ctx()); break; }
+      if (T3[k] != AC[k] || T4[k] != AC[k]) { c.violation(vh::fmt("C02:anticommutator:d%d:stored-into-an-operand-differs", d), vh::fmt("component %d: into first operand %.17g, into second %.17g, fresh %.17g; ", k, T3[k], T4[k], AC[k]) + ctx()); break; }
+    }
+  }
   {  // both operands the same object: [A,A]=0, {A,A}=2A^2, A*A=Tr(A^2)
     SU_vector CS = squids::iCommutator(A, A), AS = squids::ACommutator(A, A);
     c.eval(3);
